@@ -47,6 +47,9 @@ type interpreter struct {
 	ps      *pathState
 	id      int
 	violLit *Term
+
+	hstatesInit  map[*value]*hstate
+	initHashApps []*hashApp
 }
 
 type deferred struct {
@@ -61,7 +64,8 @@ type frame struct {
 	caller           *frame
 	fn               *ssa.Function
 	block, prevBlock *ssa.BasicBlock
-	env              map[ssa.Value]value // dynamic values of SSA variables
+	env              []value // dynamic values of SSA variables (indexed by fnInfo.slot)
+	info             *fnInfo
 	locals           []value
 	defers           *deferred
 	result           value
@@ -93,8 +97,10 @@ func (fr *frame) get(key ssa.Value) value {
 	case *ssa.Global:
 		return fr.i.global(key)
 	}
-	if r, ok := fr.env[key]; ok {
-		return r
+	if k, ok := fr.info.slot[key]; ok {
+		if r := fr.env[k]; r != nil {
+			return r
+		}
 	}
 	panic(fmt.Sprintf("get: no value for %T: %v in %s", key, key.Name(), fr.fn))
 }
@@ -254,38 +260,38 @@ func visitInstr(fr *frame, instr ssa.Instruction) continuation {
 		// no-op
 
 	case *ssa.UnOp:
-		fr.env[instr] = unop(i, instr, fr.get(instr.X))
+		fr.set(instr, unop(i, instr, fr.get(instr.X)))
 
 	case *ssa.BinOp:
-		fr.env[instr] = binop(i, instr.Op, instr.X.Type(), instr.Y.Type(), fr.get(instr.X), fr.get(instr.Y))
+		fr.set(instr, binop(i, instr.Op, instr.X.Type(), instr.Y.Type(), fr.get(instr.X), fr.get(instr.Y)))
 
 	case *ssa.Call:
 		fn, args := prepareCall(fr, &instr.Call)
-		fr.env[instr] = call(fr.i, fr, instr.Pos(), fn, args)
+		fr.set(instr, call(fr.i, fr, instr.Pos(), fn, args))
 
 	case *ssa.ChangeInterface:
-		fr.env[instr] = fr.get(instr.X)
+		fr.set(instr, fr.get(instr.X))
 
 	case *ssa.ChangeType:
-		fr.env[instr] = fr.get(instr.X) // (can't fail)
+		fr.set(instr, fr.get(instr.X)) // (can't fail)
 
 	case *ssa.Convert:
-		fr.env[instr] = conv(i, instr.Type(), instr.X.Type(), fr.get(instr.X))
+		fr.set(instr, conv(i, instr.Type(), instr.X.Type(), fr.get(instr.X)))
 
 	case *ssa.MultiConvert:
-		fr.env[instr] = conv(i, instr.Type(), instr.X.Type(), fr.get(instr.X))
+		fr.set(instr, conv(i, instr.Type(), instr.X.Type(), fr.get(instr.X)))
 
 	case *ssa.SliceToArrayPointer:
-		fr.env[instr] = sliceToArrayPointer(i, instr.Type(), instr.X.Type(), fr.get(instr.X))
+		fr.set(instr, sliceToArrayPointer(i, instr.Type(), instr.X.Type(), fr.get(instr.X)))
 
 	case *ssa.MakeInterface:
-		fr.env[instr] = iface{t: instr.X.Type(), v: fr.get(instr.X)}
+		fr.set(instr, iface{t: instr.X.Type(), v: fr.get(instr.X)})
 
 	case *ssa.Extract:
-		fr.env[instr] = fr.get(instr.Tuple).(tuple)[instr.Index]
+		fr.set(instr, fr.get(instr.Tuple).(tuple)[instr.Index])
 
 	case *ssa.Slice:
-		fr.env[instr] = sliceOp(i, instr, fr.get(instr.X), fr.get(instr.Low), fr.get(instr.High), fr.get(instr.Max))
+		fr.set(instr, sliceOp(i, instr, fr.get(instr.X), fr.get(instr.Low), fr.get(instr.High), fr.get(instr.Max)))
 
 	case *ssa.Return:
 		switch len(instr.Results) {
@@ -353,17 +359,17 @@ func visitInstr(fr *frame, instr ssa.Instruction) continuation {
 
 	case *ssa.MakeChan:
 		n := i.concreteInt(fr.get(instr.Size), "chan size")
-		fr.env[instr] = &gchan{cap: int(n), elem: instr.Type().Underlying().(*types.Chan).Elem()}
+		fr.set(instr, &gchan{cap: int(n), elem: instr.Type().Underlying().(*types.Chan).Elem()})
 
 	case *ssa.Alloc:
 		var addr *value
 		if instr.Heap {
 			// new
 			addr = new(value)
-			fr.env[instr] = addr
+			fr.set(instr, addr)
 		} else {
 			// local
-			addr = fr.env[instr].(*value)
+			addr = fr.get(instr).(*value)
 		}
 		*addr = zero(deref(instr.Type()))
 
@@ -386,23 +392,23 @@ func visitInstr(fr *frame, instr ssa.Instruction) continuation {
 				slice[k] = zero(tElt)
 			}
 		}
-		fr.env[instr] = slice[:l]
+		fr.set(instr, slice[:l])
 
 	case *ssa.MakeMap:
-		fr.env[instr] = makeMap(instr.Type().Underlying().(*types.Map).Key())
+		fr.set(instr, makeMap(instr.Type().Underlying().(*types.Map).Key()))
 
 	case *ssa.Range:
-		fr.env[instr] = rangeIter(fr.get(instr.X), instr.X.Type())
+		fr.set(instr, rangeIter(fr.get(instr.X), instr.X.Type()))
 
 	case *ssa.Next:
-		fr.env[instr] = fr.get(instr.Iter).(iter).next()
+		fr.set(instr, fr.get(instr.Iter).(iter).next())
 
 	case *ssa.FieldAddr:
 		p := i.checkPtr(fr.get(instr.X).(*value))
-		fr.env[instr] = &(*p).(structure)[instr.Field]
+		fr.set(instr, &(*p).(structure)[instr.Field])
 
 	case *ssa.Field:
-		fr.env[instr] = fr.get(instr.X).(structure)[instr.Field]
+		fr.set(instr, fr.get(instr.X).(structure)[instr.Field])
 
 	case *ssa.IndexAddr:
 		x := fr.get(instr.X)
@@ -410,11 +416,11 @@ func visitInstr(fr *frame, instr ssa.Instruction) continuation {
 		switch x := x.(type) {
 		case []value:
 			k := i.indexIn(idx, instr.Index.Type(), len(x))
-			fr.env[instr] = &x[k]
+			fr.set(instr, &x[k])
 		case *value: // *array
 			a := (*i.checkPtr(x)).(array)
 			k := i.indexIn(idx, instr.Index.Type(), len(a))
-			fr.env[instr] = &a[k]
+			fr.set(instr, &a[k])
 		default:
 			panic(fmt.Sprintf("unexpected x type in IndexAddr: %T", x))
 		}
@@ -424,35 +430,35 @@ func visitInstr(fr *frame, instr ssa.Instruction) continuation {
 		idx := fr.get(instr.Index)
 		switch x := x.(type) {
 		case array:
-			fr.env[instr] = i.indexRead([]value(x), idx, instr.Index.Type(), instr.Type())
+			fr.set(instr, i.indexRead([]value(x), idx, instr.Index.Type(), instr.Type()))
 		case string, symstr:
-			fr.env[instr] = i.indexRead(strBytes(x), idx, instr.Index.Type(), instr.Type())
+			fr.set(instr, i.indexRead(strBytes(x), idx, instr.Index.Type(), instr.Type()))
 		default:
 			panic(fmt.Sprintf("unexpected x type in Index: %T", x))
 		}
 
 	case *ssa.Lookup:
-		fr.env[instr] = lookup(i, instr, fr.get(instr.X), fr.get(instr.Index))
+		fr.set(instr, lookup(i, instr, fr.get(instr.X), fr.get(instr.Index)))
 
 	case *ssa.MapUpdate:
 		m := fr.get(instr.Map).(*gmap)
 		i.mapInsert(m, fr.get(instr.Key), fr.get(instr.Value))
 
 	case *ssa.TypeAssert:
-		fr.env[instr] = typeAssert(fr.i, instr, fr.get(instr.X).(iface))
+		fr.set(instr, typeAssert(fr.i, instr, fr.get(instr.X).(iface)))
 
 	case *ssa.MakeClosure:
 		var bindings []value
 		for _, binding := range instr.Bindings {
 			bindings = append(bindings, fr.get(binding))
 		}
-		fr.env[instr] = &closure{instr.Fn.(*ssa.Function), bindings}
+		fr.set(instr, &closure{instr.Fn.(*ssa.Function), bindings})
 
 	case *ssa.Phi:
 		panic("unreachable") // phis are processed at block entry
 
 	case *ssa.Select:
-		fr.env[instr] = selectOp(fr, instr)
+		fr.set(instr, selectOp(fr, instr))
 
 	default:
 		panic(fmt.Sprintf("unexpected instruction: %T", instr))
@@ -635,18 +641,19 @@ func callSSA(i *interpreter, caller *frame, callpos token.Pos, fn *ssa.Function,
 		panic("interp requires ssa.BuilderMode to include InstantiateGenerics to execute generics")
 	}
 
-	fr.env = make(map[ssa.Value]value, 16)
+	fr.info = i.sh.fnInfo(fn)
+	fr.env = make([]value, fr.info.n)
 	fr.block = fn.Blocks[0]
 	fr.locals = make([]value, len(fn.Locals))
 	for k, l := range fn.Locals {
 		fr.locals[k] = zero(deref(l.Type()))
-		fr.env[l] = &fr.locals[k]
+		fr.set(l, &fr.locals[k])
 	}
 	for k, p := range fn.Params {
-		fr.env[p] = args[k]
+		fr.set(p, args[k])
 	}
 	for k, fv := range fn.FreeVars {
-		fr.env[fv] = env[k]
+		fr.set(fv, env[k])
 	}
 	for fr.block != nil {
 		runFrame(fr)
@@ -750,7 +757,7 @@ func executePhis(fr *frame) []ssa.Instruction {
 			fr.phitemps = append(fr.phitemps, fr.get(phi.Edges[predIndex]))
 		}
 		for i, phi := range phis {
-			fr.env[phi.(*ssa.Phi)] = fr.phitemps[i]
+			fr.set(phi.(*ssa.Phi), fr.phitemps[i])
 		}
 	}
 	return nonPhis
@@ -783,4 +790,45 @@ func doRecover(caller *frame) value {
 		}
 	}
 	return iface{}
+}
+
+// fnInfo numbers the SSA values of a function so that frames can keep them in a slice.
+type fnInfo struct {
+	slot map[ssa.Value]int32
+	n    int
+}
+
+func (sh *shared) fnInfo(fn *ssa.Function) *fnInfo {
+	if v, ok := sh.fnInfos.Load(fn); ok {
+		return v.(*fnInfo)
+	}
+	inf := &fnInfo{slot: map[ssa.Value]int32{}}
+	add := func(v ssa.Value) {
+		if _, ok := inf.slot[v]; !ok {
+			inf.slot[v] = int32(inf.n)
+			inf.n++
+		}
+	}
+	for _, p := range fn.Params {
+		add(p)
+	}
+	for _, fv := range fn.FreeVars {
+		add(fv)
+	}
+	for _, l := range fn.Locals {
+		add(l)
+	}
+	for _, b := range fn.Blocks {
+		for _, ins := range b.Instrs {
+			if v, ok := ins.(ssa.Value); ok {
+				add(v)
+			}
+		}
+	}
+	act, _ := sh.fnInfos.LoadOrStore(fn, inf)
+	return act.(*fnInfo)
+}
+
+func (fr *frame) set(key ssa.Value, v value) {
+	fr.env[fr.info.slot[key]] = v
 }
